@@ -8,6 +8,9 @@ verus! {
 global size_of usize == 8;
 
 //@include prelude/inc_pwl_core.rs
+//@include prelude/tol_spec.rs
+//@include prelude/wit_core_spec.rs
+//@include prelude/wit_grow_spec.rs
 
 impl<N, const K: usize> Tree<N, K> {
 // proved in unit tree_graph; only needed here so that the (unreachable) pruning branches type-check
@@ -745,6 +748,9 @@ impl<const K: usize> AffTree<K> {
         forall|i: usize| final(rhs).a().dom().contains(i) && #[trigger] final(rhs).a()[i].isleaf ==>
             (old(rhs).a().dom().contains(i) && old(rhs).a()[i].isleaf && !terminals@.contains(i) && final(rhs).a()[i] == old(rhs).a()[i])
             || (exists|p: usize| lhs.a().dom().contains(p) && (#[trigger] lhs.a()[p]).isleaf && final(rhs).a()[i].value.aff.mat.nrows() == lhs.a()[p].value.aff.mat.nrows()),
+        // C05 (caches through un-pruned composition): witnesses that satisfied their path conditions up to 1e-8 before still do - every old node keeps its cached
+        // state ("update_node keeps the cache when a terminal becomes a decision") and its path, every new node starts without cache (invariant states_kept)
+        wit_inv(old(rhs).a(), old(rhs).a()) ==> wit_inv(final(rhs).a(), final(rhs).a()),
         // C02, the law: for every input the result denotes "route through the old tree, continue in the left operand at a listed terminal",
         // undefinedness included
         forall|h0: Map<usize, nat>, h1: Map<usize, nat>, hl: Map<usize, nat>, x: V|
@@ -759,11 +765,15 @@ impl<const K: usize> AffTree<K> {
             tree_fn(final(rhs).a(), h1, old(rhs).tree.root.unwrap(), x) == and_then_fn(old(rhs).a(), h0, lhs.a(), hl, lhs.tree.root.unwrap(), old(rhs).tree.root.unwrap(), x),
 //@hint start
         let ghost rl = lhs.tree.root.unwrap();
-        proof { lemma_outer_init(lhs.a(), rhs.a(), rl, terminals@, rhs.in_dim); }
+        proof { lemma_outer_init(lhs.a(), rhs.a(), rl, terminals@, rhs.in_dim); lemma_sk_init(rhs.a()); }
 //@hint loop 1 after
         proof {
             let a0 = old(rhs).a(); let a1 = rhs.a(); let al = lhs.a(); let ts = terminals@;
             lemma_outer_exit(al, a0, a1, rl, ts, rhs.in_dim);
+            if wit_inv(a0, a0) {
+                assert(old_kept(a0, a1)) by { reveal(old_nodes_kept); }
+                lemma_wit_grow(a0, a1);
+            }
             if old(rhs).tree.root is Some {
                 let r0 = old(rhs).tree.root.unwrap();
                 assert forall|h0: Map<usize, nat>, h1: Map<usize, nat>, hl: Map<usize, nat>, x: V|
@@ -791,6 +801,7 @@ impl<const K: usize> AffTree<K> {
                 old_nodes_kept(old(rhs).a(), rhs.a(), terminals@), untouched(old(rhs).a(), rhs.a(), terminals@, __t as int),
                 grafted_upto(lhs.a(), rhs.a(), old(rhs).a(), rl, terminals@, __t as int, rhs.in_dim),
                 leaves_from(rhs.a(), old(rhs).a(), lhs.a(), terminals@, __t as int),
+                states_kept(old(rhs).a(), rhs.a()), old(rhs).a().dom().subset_of(rhs.a().dom()),
 //@hint loop 1 start
             let ghost a_start = rhs.a();
             proof { lemma_pick(old(rhs).a(), a_start, terminals@, __t as int, lhs.in_dim, rhs.in_dim); }
@@ -800,6 +811,7 @@ impl<const K: usize> AffTree<K> {
             proof {
                 broadcast use axiom_array2_shape;
                 lemma_start(lhs.a(), a_start, rhs.a(), rl, terminal_idx, terminal_aff.mat.m(), terminal_aff.bias.v(), rhs.in_dim);
+                lemma_sk_update(old(rhs).a(), a_start, rhs.a(), terminal_idx);
             }
 //@loop 2
                 invariant
@@ -816,6 +828,7 @@ impl<const K: usize> AffTree<K> {
                     terminal_aff.mat.m() == old(rhs).a()[terminal_idx].value.aff.mat.m(), terminal_aff.bias.v() == old(rhs).a()[terminal_idx].value.aff.bias.v(),
                     graft_inv(lhs.a(), rhs.a(), a_start.dom(), phi, done, None, rl, terminal_idx, terminal_aff.mat.m(), terminal_aff.bias.v(), rhs.in_dim),
                     stack_ok(phi, done, None, stack@),
+                    states_kept(old(rhs).a(), rhs.a()), old(rhs).a().dom().subset_of(rhs.a().dom()),
                 ensures stack@.len() == 0,
 //@hint loop 2 start
                 proof {
@@ -838,6 +851,7 @@ impl<const K: usize> AffTree<K> {
                     terminal_aff.mat.m() == old(rhs).a()[terminal_idx].value.aff.mat.m(), terminal_aff.bias.v() == old(rhs).a()[terminal_idx].value.aff.bias.v(),
                         graft_inv(lhs.a(), rhs.a(), a_start.dom(), phi, done, Some(parent0_idx), rl, terminal_idx, terminal_aff.mat.m(), terminal_aff.bias.v(), rhs.in_dim),
                         stack_ok(phi, done, Some(parent0_idx), stack@),
+                        states_kept(old(rhs).a(), rhs.a()), old(rhs).a().dom().subset_of(rhs.a().dom()),
                         // the node being expanded and its copy
                         phi.dom().contains(parent0_idx), phi[parent0_idx] == parent1_idx, !done.contains(parent0_idx),
                         lhs.a().dom().contains(parent0_idx), rhs.a().dom().contains(parent1_idx),
@@ -854,12 +868,13 @@ impl<const K: usize> AffTree<K> {
                         lemma_kid_seq_members(lhs.a()[parent0_idx].children, 0);
                         assert(__kids@[__i as int].label == kid_seq(lhs.a()[parent0_idx].children, 0)[__i as int].0);
                     }
-//@hint after let child1_idx = rhs .tree .add_child_node(parent1_idx, label, AffContent::new(child1_aff)) .unwrap();
+//@hint after let child1_idx = rhs .tree .add_child_node(parent1_idx, label,
                     proof {
                         broadcast use axiom_array2_shape;
                         lemma_child_step(lhs.a(), lhs.tree.root, lhs.in_dim, a_start, a_pre, rhs.a(), phi, done, rl, terminal_idx, terminal_aff.mat.m(), terminal_aff.bias.v(), rhs.in_dim,
                             stack@, parent0_idx, __i as int, child1_idx);
                         phi = phi.insert(child0_idx, child1_idx);
+                        lemma_sk_add(old(rhs).a(), a_pre, rhs.a(), parent1_idx, label, child1_idx);
                     }
 //@hint loop 3 after
                 proof {
@@ -894,6 +909,8 @@ impl<const K: usize> AffTree<K> {
             tree_fn(final(self).a(), h1, old(self).tree.root.unwrap(), x) == and_then_fn(old(self).a(), h0, other.a(), hl, other.tree.root.unwrap(), old(self).tree.root.unwrap(), x),
         // the nodes of the receiver keep their indices
         forall|i: usize| old(self).a().dom().contains(i) ==> #[trigger] final(self).a().dom().contains(i),
+        // C05: witnesses that were right stay right (cached states of the receiver's nodes are kept, copied nodes start without cache)
+        wit_inv(old(self).a(), old(self).a()) ==> wit_inv(final(self).a(), final(self).a()),
         // every terminal of the result has the output dimension of a terminal of `other`
         forall|i: usize| final(self).a().dom().contains(i) && #[trigger] final(self).a()[i].isleaf ==>
             exists|p: usize| other.a().dom().contains(p) && (#[trigger] other.a()[p]).isleaf && final(self).a()[i].value.aff.mat.nrows() == other.a()[p].value.aff.mat.nrows(),
